@@ -39,7 +39,18 @@ pub struct YLayout {
     /// order of first definition of the rules (AG indices)
     pub rule_order: Vec<usize>,
     pub features: Vec<String>,
+    /// text of the programs section (after a third `%%`), as programs() must report it
+    #[serde(default)]
+    pub programs: Option<String>,
 }
+
+pub const PROGRAMS: &[&str] = &[
+    "fn helper() -> u8 { 0 }\n",
+    "use std::collections::HashMap; // é 漢 %% { } ' \"\nfn f<'a>(x: &'a str) -> &'a str { x }\n\n",
+    "",
+    "%% not a separator any more\n",
+    "x",
+];
 
 pub const RULE_NAMES: &[&str] = &["Expr", "term_2", "A", "_x", "R9z", "Stmt", "b", "Zed"];
 pub const TOKEN_NAMES_QUOTED: &[&str] = &["+", "é", "a b", "漢", "x\"y", "it's", "//", "/*", "%", "{", "|", ";", ":", "->", "*/", "}"];
@@ -325,6 +336,7 @@ pub fn render_varied(ch: &mut Choices, ag: &AG, kind: YKind) -> (String, YLayout
         Expect,
         ExpectRr,
         ParseParam,
+        ParseGenerics,
         ActionType,
         Implicit,
     }
@@ -360,6 +372,9 @@ pub fn render_varied(ch: &mut Choices, ag: &AG, kind: YKind) -> (String, YLayout
     let parse_param = matches!(kind, YKind::UserAction | YKind::Grmtools) && w.ch.chance(1, 3);
     if parse_param {
         items.push(Item::ParseParam);
+    }
+    if w.ch.chance(1, 4) {
+        items.push(Item::ParseGenerics);
     }
     if kind == YKind::UserAction {
         items.push(Item::ActionType);
@@ -465,6 +480,10 @@ pub fn render_varied(ch: &mut Choices, ag: &AG, kind: YKind) -> (String, YLayout
             }
             Item::ParseParam => {
                 w.s.push_str("%parse-param p: &'a mut u8");
+            }
+            Item::ParseGenerics => {
+                w.s.push_str("%parse-generics 'a, T: Copy");
+                w.feat("parse-generics");
             }
             Item::ActionType => {
                 w.s.push_str("%actiontype Vec<é>");
@@ -634,6 +653,20 @@ pub fn render_varied(ch: &mut Choices, ag: &AG, kind: YKind) -> (String, YLayout
         if !w.s.ends_with(|c: char| c.is_whitespace() || c == '/') {
             w.nl();
         }
+    }
+    if w.ch.chance(1, 3) {
+        // programs section
+        w.s.push_str("%%");
+        let prog = *w.ch.choose(PROGRAMS);
+        if !prog.is_empty() || w.ch.chance(1, 2) {
+            w.any_ws(false);
+            if w.s.ends_with('/') {
+                w.nl();
+            }
+        }
+        w.s.push_str(prog);
+        lay.programs = Some(prog.to_string());
+        w.feat("programs");
     }
     lay.features = w.feats.clone();
     (w.s, lay)
